@@ -9,7 +9,7 @@ native = casesmod.Native('/verif/build/target-runner/debug/verif-runner')
 res = casesmod.run_case(case, m, sc, native=native)
 for v in res['violations'][:6]:
     mdl=v.get('model') or {}
-    print(v['claim'], {k:mdl[k] for k in mdl if k in ('sl0','ts_offset','ts_speed')}, v['replay'].get('reproduced'))
+    print(v['claim'], {k:mdl[k] for k in mdl if mdl[k] not in (0,0.0)}, v['replay'].get('reproduced'))
     np_=v['replay'].get('native_post') or {}
     st=(np_.get('state') or {})
     print('   native post: offset',st.get('offset'),'speed',st.get('speed'),'limit',st.get('speed_limit'),'target',st.get('speed_target'), 'bp', (np_.get('braking_points') or {}).get('points'))
